@@ -62,7 +62,7 @@ def cases(draw):
         sites.append({
             "args": vals[:npos],
             "kws": [[PN[k], vals[k]] for k in range(npos, stop)],
-            "pos": draw(st.sampled_from(["stmt", "assign", "nested", "nested", "print", "multiline"])),
+            "pos": draw(st.sampled_from(["stmt", "assign", "nested", "nested", "print", "multiline", "stmt_tail"])),
             "module": draw(st.sampled_from(["lib", "use", "use"])),
             "qualified": draw(st.booleans()),
             # where the call stands: module level, or inside a function of its own without / with a local named like a
@@ -84,6 +84,8 @@ def cases(draw):
         "modattr": modattr,
         "early_reader": draw(st.booleans()),
         "prefix_import": draw(st.booleans()),
+        # flat modules, or the defining module in a sub-package and the using module one level up, importing relatively
+        "layout": draw(st.sampled_from(["flat", "flat", "package"])),
     }
 
 
@@ -127,6 +129,9 @@ def render(case):
             line = "def h%d():\n%s    r%d = %s\n    return r%d%s\nprint(h%d())\n" % (k, "    t0 = 50\n" if clash else "", k, ref, k, " + t0" if clash else "", k)
         elif s["pos"] == "stmt" and kind != "variable":
             line = "%s\n" % ref
+        elif s["pos"] == "stmt_tail" and kind != "variable":
+            # the call starts its statement and the statement goes on behind the closing parenthesis, using the value
+            line = "%s %s print('tail %d')\n" % (ref, "and" if k % 2 else "or", k)
         elif s["pos"] == "multiline":
             # the call stands on a continuation line of a statement that follows a deeper-indented block
             line = "if not w:\n    pass\nr%d = (1 +\n    %s)\nprint(r%d)\n" % (k, ref, k)
@@ -158,9 +163,21 @@ def render(case):
     return files
 
 
+def _paths(case):
+    return ("pkg/core/lib.py", "pkg/use.py") if case.get("layout") == "package" else ("lib.py", "use.py")
+
+
+def _to_package(files):
+    out = dict(files)
+    lib, use = out.pop("lib.py"), out.pop("use.py")
+    use = use.replace("import lib\n", "from .core import lib\n", 1).replace("from lib import ", "from .core.lib import ", 1)
+    out.update({"pkg/__init__.py": "", "pkg/core/__init__.py": "", "pkg/core/lib.py": lib, "pkg/use.py": use, "main.py": "import pkg.core.lib\nimport pkg.use\n"})
+    return out
+
+
 def describe(case):
     f = render(case)
-    return {"lib.py": f["lib.py"], "use.py": f["use.py"], "remove": case["remove"], "only_current": case["only_current"], "query": case["query"], "kind": case["kind"]}
+    return {"layout": case.get("layout", "flat"), "lib.py": f["lib.py"], "use.py": f["use.py"], "remove": case["remove"], "only_current": case["only_current"], "query": case["query"], "kind": case["kind"]}
 
 
 def hazards(case, files):
@@ -206,6 +223,9 @@ def evaluate(case, env):
 
     out = core.Outcome()
     files = render(case)
+    LIBP, USEP = _paths(case)
+    if case.get("layout") == "package":
+        files = _to_package(files)
     base = runner.run(files, "main.py")
     if base[1]:
         raise core.HarnessError("generated project raises %s\n%s" % (base[1], runner.LAST_TB))
@@ -223,35 +243,35 @@ def evaluate(case, env):
     fsmodel.write_tree(root, files)
     project = Project(root, ropefolder=None)
     try:
-        lib = files["lib.py"]
+        lib = files[LIBP]
         only_current = case["only_current"]
         remove = case["remove"]
         if kind == "parameter":
             pname = [n for n, d in case["params"] if d is not None][0]
             off = lib.index("def target(") + len("def target(") + lib[lib.index("def target(") + len("def target("):].index(pname)
-            res = project.get_file("lib.py")
+            res = project.get_file(LIBP)
             kwargs = {}
         else:
             # query: the definition, or the LAST occurrence (so that only_current + remove is a legal request)
             if case["query"] == "def" and not only_current:
                 off = lib.index("target")
-                res = project.get_file("lib.py")
+                res = project.get_file(LIBP)
             else:
-                use = files["use.py"]
+                use = files[USEP]
                 if "target" in use.split("\n", 2)[2] if use.count("\n") >= 2 else False:
                     body_start = len(use) - len(use.split("\n", 2)[2])
                     off = use.rindex("target")
-                    res = project.get_file("use.py")
+                    res = project.get_file(USEP)
                 else:
                     off = lib.rindex("target")
                     if off == lib.index("target"):
                         out.notes["no_use_site"] += 1
                         return out
-                    res = project.get_file("lib.py")
+                    res = project.get_file(LIBP)
             kwargs = {"remove": remove, "only_current": only_current}
             if only_current and remove:
                 # caller contract: legal only when the queried occurrence is the last remaining reference
-                nuses = sum(ln.count("target") for ln in files["use.py"].split("\n")[2:]) + files["lib.py"].count("target") - 1
+                nuses = sum(ln.count("target") for ln in files[USEP].split("\n")[2:]) + files[LIBP].count("target") - 1
                 if nuses != 1:
                     kwargs["remove"] = remove = False
         out.evals += 1
